@@ -200,7 +200,9 @@ func read(r io.Reader) (map[byte][]bucket, error) {
 	var h = map[byte][]bucket{}
 
 	var tag, n byte
-	var lastItemWasDelimiter bool
+	// tags stored since the last delimiter; a repeated tag within this
+	// range is a fragment of the value stored last
+	var seen = map[byte]bool{}
 	for {
 		if err := binary.Read(r, binary.LittleEndian, &tag); err != nil {
 			if err == io.EOF {
@@ -219,17 +221,20 @@ func read(r io.Reader) (map[byte][]bucket, error) {
 
 		if len(v) > 0 {
 			if l, ok := h[tag]; ok {
-				if lastItemWasDelimiter {
-					h[tag] = append(l, v)
+				if seen[tag] {
+					l[len(l)-1] = append(l[len(l)-1], v...)
 				} else {
-					h[tag] = []bucket{append(l[0], v...)}
+					h[tag] = append(l, v)
 				}
 			} else {
 				h[tag] = []bucket{v}
 			}
+			seen[tag] = true
 		}
 
-		lastItemWasDelimiter = tag == 0 && n == 0
+		if tag == 0 && n == 0 {
+			seen = map[byte]bool{}
+		}
 	}
 
 	return h, nil
